@@ -304,6 +304,14 @@ static void eval_mutant(mctx_t *mc, const uint8_t *h, const char *what)
     uint64_t og; uint64_t claim = hdr_claim(h, &og);
     if (acc && claim > P) { mon_count("mutants_discarded_forged_size", 1); return; }   /* forged input, not corruption (DESIGN 4.1) */
     uint8_t *f = malloc(s->flen);
+    /* every other mutant: the pristine fragment is verified in this very buffer first and then edited in place (a verdict is
+     * about the bytes at the call, not about what was last seen at an address) */
+    if (mc->nmut % 2 == 1) {
+        memcpy(f, s->frag[mc->fidx], s->flen);
+        fragment_metadata_t m0; int r0 = liberasurecode_get_fragment_metadata((char *)f, &m0); int h0 = is_invalid_fragment_header((fragment_header_t *)f);
+        if (r0 != 0 || h0 != 0) mon_viol("C09", "valid-header-rejected", "%s: the fragment as encode wrote it is rejected (rc %d, header verdict %d)", what, r0, h0);
+        mon_count("mutants_edited_in_place_after_a_good_verdict", 1);
+    }
     memcpy(f, h, 80); memcpy(f + 80, s->frag[mc->fidx] + 80, P);
     uint8_t *before = malloc(s->flen); memcpy(before, f, s->flen);
     fragment_metadata_t md; memset(&md, 0x5a, sizeof md);
@@ -809,6 +817,20 @@ static void run_endian(void)
                             }
                             int ha = is_invalid_fragment_header((fragment_header_t *)nat), hb = is_invalid_fragment_header((fragment_header_t *)tw);
                             if (v != 4 && ha != hb) mon_viol("C11", "header-verdict-differs", "%s: native %d twin %d", vn, ha, hb);
+                            /* the output struct may be the fragment's own header (metadata converted in place, e.g. to hand the
+                             * fragments to verify_stripe_metadata): same answer as with a separate struct */
+                            if (v <= 1 && ra == 0 && rb == 0) {
+                                uint8_t *ip = malloc(s->flen + 64);
+                                for (int side = 0; side < 2; side++) {
+                                    memcpy(ip, side ? tw : nat, s->flen);
+                                    int ri = liberasurecode_get_fragment_metadata((char *)ip, (fragment_metadata_t *)ip);
+                                    const fragment_metadata_t *mi = (const fragment_metadata_t *)ip, *mr = side ? &mb : &ma;
+                                    mon_count("evaluations", 1); mon_count("in_place_queries", 1);
+                                    if (ri != 0 || mi->idx != mr->idx || mi->size != mr->size || mi->orig_data_size != mr->orig_data_size || mi->chksum_mismatch != mr->chksum_mismatch || mi->chksum[0] != mr->chksum[0] || mi->backend_version != mr->backend_version)
+                                        mon_viol("C11", "in-place-query-differs", "%s: metadata query with the output struct on the %s fragment's own header: rc %d, mismatch %d (separate struct: %d), size %u (%u)", vn, side ? "opposite-endian" : "native", ri, mi->chksum_mismatch, mr->chksum_mismatch, mi->size, mr->size);
+                                }
+                                free(ip);
+                            }
                             /* reading a fragment - accepted or refused, either byte order - leaves its bytes alone */
                             if (mon_hash(nat, s->flen, 5) != dnat || mon_hash(tw, s->flen, 5) != dtw) mon_viol("C11", "query-modified-fragment", "%s: the %s fragment's bytes changed during the metadata query / header check (rc %d/%d)", vn, mon_hash(tw, s->flen, 5) != dtw ? "opposite-endian" : "native", ra, rb);
                             if (v == 1 && ct == CHKSUM_CRC32 && ra == 0 && rb == 0) {
